@@ -287,6 +287,15 @@ func runRT(cfg vsched.Config, sc *RTScn, twice bool) *RTResult {
 					}
 				}
 			}
+		case "dsack-below-window":
+			// next to its ordinary acknowledgements the target sends one whose only SACK block lies BELOW the connection's
+			// initial sequence number (a duplicate-SACK for data of before): a bad packet for this trace, not a sign that
+			// selective acknowledgement is missing
+			for _, s := range scns {
+				if s.Variant == "sack" {
+					s.Inject = append(s.Inject, Inject{OnTTL: s.First, AnswerTTL: s.First, Form: "sack1", From: SackAddr.String(), DelayUs: 2500, Tag: "dsack", Rewrite: []simnet.Perturb{{Field: "sack.left", Op: "-256"}}})
+				}
+			}
 		case "fin-during-trace", "rstack-during-trace":
 			// the target closes (half-close: it keeps acknowledging) or resets its side while the probes are going out: a
 			// FIN|ACK / RST|ACK on the traced connection, without SACK blocks, is not "the target acknowledging without
